@@ -358,6 +358,9 @@ func (s *sys) observe(when string, sequential bool) *hist.Violation {
 // never suspended in the middle of a cache update - at every scheduling point, so that no
 // state of the cache goes unobserved (a key that is not served for a while starts afresh).
 func (s *sys) sampleUnlocked(when string) *hist.Violation {
+	if sched.FreeRunning {
+		return nil // the unlocked read is only sound under the cooperative scheduler
+	}
 	l := s.bc.Regions.GetRegions()
 	sort.Slice(l, func(i, j int) bool { return string(l[i].GetStartKey()) < string(l[j].GetStartKey()) })
 	return s.observeList(l, when, false)
@@ -768,10 +771,61 @@ func concurrent(name string, hdepth, nstreams, per, pre int, tiers string, pick 
 	return out
 }
 
+// flushRace: one stream of heartbeats (a window of three snapshots of a history) against a real,
+// switched-on region storage while a second thread flushes the storage's batch twice (the background
+// flusher and a full batch do the same at arbitrary moments). At the end, after a last flush, the
+// stored records must describe exactly the served regions.
+func flushRace(name string, hdepth, pre int, tiers string, pick func(i int) bool) []*explore.Scenario {
+	var out []*explore.Scenario
+	for hi, h := range histories(hdepth) {
+		if !pick(hi) || len(h.msgs) < 3 {
+			continue
+		}
+		h := h
+		for rot := 0; rot < len(h.msgs); rot++ {
+			rot := rot
+			out = append(out, &explore.Scenario{Name: fmt.Sprintf("%s/h%d/rot%d", name, hi, rot), MaxPre: pre, Tiers: tiers, Setup: func() *explore.Instance {
+				activeRegionStorage = true
+				s := newSys(true)
+				activeRegionStorage = false
+				return &explore.Instance{Names: []string{"stream", "flusher"}, Threads: []func(){
+					func() {
+						for k := 0; k < 3; k++ {
+							_ = s.rc.VerifProcessRegionHeartbeat(mkRegion(h.msgs[(rot+k)%len(h.msgs)]))
+						}
+					},
+					func() {
+						for k := 0; k < 2; k++ {
+							if err := s.st.Flush(); err != nil {
+								panic(err)
+							}
+						}
+					},
+				}, Check: func(r *sched.Run) (string, *explore.Violation) {
+					defer s.close()
+					if err := s.st.Flush(); err != nil {
+						panic(err)
+					}
+					cl := strings.Split(s.cacheDigest(), " ")
+					sort.Strings(cl)
+					st, c := strings.Join(s.stored(), " "), strings.Join(cl, " ")
+					if st != c {
+						return "", &explore.Violation{Key: "storage-differs", Msg: fmt.Sprintf("history {%s}, heartbeats from #%d one at a time while the region storage flushes: storage holds\n    %s\n  but the cache serves\n    %s", h.name, rot, st, c)}
+					}
+					return c, nil
+				}}
+			}})
+		}
+	}
+	return out
+}
+
 func main() {
 	var scen []*explore.Scenario
 	scen = append(scen, concurrent("2x1", 2, 2, 1, 2, "quick", func(i, n int) bool { return i%12 == 0 })...)
 	scen = append(scen, concurrent("2x2", 2, 2, 2, 2, "quick", func(i, n int) bool { return i%24 == 3 })...)
+	scen = append(scen, flushRace("flush-race", 2, 2, "quick", func(i int) bool { return i%6 == 1 })...)
+	scen = append(scen, flushRace("flush-race/all", 2, 2, "thorough", func(i int) bool { return i%6 != 1 })...)
 	scen = append(scen, concurrent("2x1/all", 2, 2, 1, 2, "thorough", func(i, n int) bool { return true })...)
 	scen = append(scen, concurrent("2x2@3", 2, 2, 2, 3, "thorough", func(i, n int) bool { return i%2 == 0 })...)
 	scen = append(scen, concurrent("3x1@3", 3, 3, 1, 3, "thorough", func(i, n int) bool { return i%9 == 0 })...)
@@ -784,6 +838,7 @@ func main() {
 			{Name: "deliver/h1/len4/idle-region-storage", Tiers: "quick", Depth: 5, NewModel: func() hist.Model { m := newModel(1); m.idle = true; return m }},
 			{Name: "deliver/h1/len3/save-faults+logging", Tiers: "quick", Depth: 4, NewModel: func() hist.Model { m := newModel(1); m.faults = true; return m }},
 			{Name: "deliver/h1/len4/region-storage+flushes", Tiers: "quick", Depth: 5, NewModel: func() hist.Model { m := newModel(1); m.rs = true; return m }},
+			{Name: "deliver/three/h2/len4/region-storage+flushes", Tiers: "quick", Depth: 6, NewModel: func() hist.Model { m := newModelFrom(2, true); m.rs = true; return m }},
 			{Name: "deliver/h1/len5", Tiers: "quick", Depth: 6, NewModel: func() hist.Model { return newModel(1) }},
 			{Name: "deliver/h3/len4", Tiers: "thorough", Depth: 5, NewModel: func() hist.Model { return newModel(3) }},
 			{Name: "deliver/h2/len4/save-faults+logging", Tiers: "thorough", Depth: 5, NewModel: func() hist.Model { m := newModel(2); m.faults = true; return m }},
